@@ -14,6 +14,7 @@ type Val struct {
 	T       Term
 	Ty      types.Type
 	Loc     *Addr // located struct/array value (T unused)
+	Cell    *Addr // a variable that lives in a cell: read in the state of evaluation (so old(v) works)
 	Ptr     *Addr // pointer argument that is the address of a caller's field/element: *p is that location
 	Nil     bool
 	Untyped bool
@@ -130,6 +131,12 @@ func boolVal(s string) Val { return Val{T: Term{s, SBool_}, Ty: tBool} }
 
 // rvalue turns a located value into a first-class term.
 func (e *Env) rvalue(v Val) Val {
+	if v.Cell != nil {
+		if e.cur == nil {
+			efail("state access in pure context")
+		}
+		return Val{T: e.t.load(e.cur, v.Cell), Ty: v.Ty}
+	}
 	if v.Loc != nil {
 		if e.cur == nil {
 			efail("state access in pure context")
@@ -193,6 +200,18 @@ func (e *Env) eval(x SExpr) Val {
 		return e.index(x)
 	case *SSlice:
 		v := e.rvalue(e.eval(x.X))
+		if isStringType(v.Ty) {
+			t.vc.needStr()
+			t.declSubstr()
+			lo, hi := "0", fmt.Sprintf("(strlen %s)", v.T.S)
+			if x.Lo != nil {
+				lo = e.rvalue(e.eval(x.Lo)).T.S
+			}
+			if x.Hi != nil {
+				hi = e.rvalue(e.eval(x.Hi)).T.S
+			}
+			return Val{T: Term{fmt.Sprintf("(substr %s %s %s)", v.T.S, lo, hi), SInt_}, Ty: v.Ty}
+		}
 		if _, ok := v.Ty.Underlying().(*types.Slice); !ok {
 			efail("slice expression on non-slice")
 		}
@@ -256,6 +275,12 @@ func (e *Env) unbox(ifc string, ty types.Type) Val {
 func (e *Env) ident(name string) Val {
 	t := e.t
 	if v, ok := e.vars[name]; ok {
+		if v.Cell != nil {
+			if e.cur == nil {
+				efail("state access in pure context")
+			}
+			return Val{T: t.load(e.cur, v.Cell), Ty: v.Ty}
+		}
 		return v
 	}
 	switch name {
@@ -473,6 +498,12 @@ func (e *Env) unify(a, b Val) (Val, Val) {
 	if b.Nil {
 		b = e.coerce(b, a.Ty)
 	}
+	if a.T.Sort == "Real" && b.T.Sort == SInt_ {
+		b = Val{T: Term{"(to_real " + b.T.S + ")", "Real"}, Ty: a.Ty}
+	}
+	if b.T.Sort == "Real" && a.T.Sort == SInt_ {
+		a = Val{T: Term{"(to_real " + a.T.S + ")", "Real"}, Ty: b.Ty}
+	}
 	if a.T.Sort != b.T.Sort {
 		efail("operands have different sorts: %s vs %s", a.T.Sort, b.T.Sort)
 	}
@@ -646,6 +677,22 @@ func (e *Env) quant(x *SQuant) Val {
 		}
 	} else if len(facts) > 0 {
 		b = fmt.Sprintf("(=> %s %s)", mkAnd(facts...), b)
+	}
+	var names []string
+	for _, bd := range binders {
+		names = append(names, strings.Fields(strings.Trim(bd, "()"))[0])
+	}
+	if x.Forall {
+		for i, bd := range binders {
+			if strings.HasSuffix(bd, " Int)") {
+				if nb, ok := absolutize(b, names[i]); ok {
+					b = nb
+				}
+			}
+		}
+	}
+	if pats := inferPatterns(b, names); pats != "" && x.Forall {
+		return boolVal(fmt.Sprintf("(%s (%s) (! %s %s))", q, strings.Join(binders, " "), b, pats))
 	}
 	return boolVal(fmt.Sprintf("(%s (%s) %s)", q, strings.Join(binders, " "), b))
 }
@@ -1174,4 +1221,9 @@ func substTokens(s string, pairs []string) string {
 		i = j
 	}
 	return b.String()
+}
+
+func (t *Tr) declSubstr() {
+	t.vc.needStr()
+	t.vc.declFun("substr", "(declare-fun substr (Int Int Int) Int)\n(assert (forall ((s Int) (a Int) (b Int)) (! (=> (and (<= 0 a) (<= a b) (<= b (strlen s))) (= (strlen (substr s a b)) (- b a))) :pattern ((substr s a b)))))\n(assert (forall ((s Int) (a Int) (b Int) (i Int)) (! (=> (and (<= 0 a) (<= a b) (<= b (strlen s)) (<= 0 i) (< i (- b a))) (= (strat (substr s a b) i) (strat s (+ a i)))) :pattern ((strat (substr s a b) i)))))\n(assert (forall ((s Int)) (! (= (substr s 0 (strlen s)) s) :pattern ((substr s 0 (strlen s))))))")
 }
